@@ -135,11 +135,15 @@ pub fn filter_file_rule(
   let mut ret = smallvec![grep.clone()];
   if let Some(injected) = lang.injectable_sg_langs() {
     let docs = grep.inner.get_injections(|s| SgLang::from_str(s).ok());
-    let inj = injected.filter_map(|l| {
-      let doc = docs.iter().find(|d| *d.lang() == l)?;
-      let grep = AstGrep { inner: doc.clone() };
-      collect_file_stats(path, l, configs, trace).ok()?;
-      Some(grep)
+    // one language can have several documents, e.g. <script> and <script lang="javascript">
+    let inj = injected.flat_map(|l| {
+      let mut of_lang = docs.iter().filter(|d| *d.lang() == l).peekable();
+      if of_lang.peek().is_some() && collect_file_stats(path, l, configs, trace).is_err() {
+        return vec![];
+      }
+      of_lang
+        .map(|doc| AstGrep { inner: doc.clone() })
+        .collect::<Vec<_>>()
     });
     ret.extend(inj)
   }
